@@ -269,6 +269,9 @@ class QCOW2ExtBackend(SourcedStateBackend, QCOW2Backend):
         for snapshot in snapshots:
             if not snapshot.endswith(".qcow2"):
                 continue
+            if not os.path.exists(os.path.join(image_dir, snapshot)):
+                logging.warning(f"Dead link {snapshot} in {image_dir} is not a state")
+                continue
             size = os.stat(os.path.join(image_dir, snapshot)).st_size
             state = snapshot[:-6]
             logging.debug(
